@@ -62,7 +62,7 @@ ACC_PHASES = ["before-rq", "inside-rq", "idle", "mid-command", "between-command-
 # the peer never goes quiet: after provoking (or being sent) an A-ABORT it ignores it and keeps streaming complete PDUs
 ACC_STREAM_PHASES = ["stream-after-request-on-unaccepted-context", "stream-after-unrecognised-pdu", "stream-after-undecodable-pdu", "stream-after-release-rq",
                      "stream-while-application-aborts"]
-REQ_PHASES = ["tls-handshake-silent", "before-ac", "inside-ac", "echo-no-response", "echo-response-inside-pdu", "find-pending-then-silence",
+REQ_PHASES = ["tls-handshake-silent", "abort-racing-the-call", "before-ac", "inside-ac", "echo-no-response", "echo-response-inside-pdu", "find-pending-then-silence",
               "find-response-mid-dataset", "release-no-rp", "release-rp-inside-pdu", "store-no-response"]
 
 
@@ -328,6 +328,7 @@ def run_requestor(case, counters):
     stall_at = {"t": None}
     res = {}
     stallers = []
+    race_go = threading.Event()
 
     def script():
         q = lst.accept(5.0)
@@ -347,6 +348,12 @@ def run_requestor(case, counters):
             if ph == "inside-ac":
                 st.stall(ac, cut_offset(case["cut"], len(ac), rng)); stall_at["t"] = time.time(); time.sleep(WATCHDOG + 3); return
             q.send_raw(ac)
+            if ph == "abort-racing-the-call":
+                # A-ABORT while the user's send_c_echo() is past its is_established check; the TCP connection stays open
+                if race_go.wait(5.0):
+                    q.send_pdu({"type": "ABORT", "source": 0, "reason": 0})
+                    stall_at["t"] = time.time(); time.sleep(WATCHDOG + 3)
+                return
             m = q.recv_dimse(4.0)
             if not m or m.get("type") != "DIMSE":
                 if ph.startswith("release") and m and m.get("type") == "RELRQ":
@@ -395,6 +402,16 @@ def run_requestor(case, counters):
             res["established"] = a.is_established
             if not a.is_established:
                 return
+            if ph == "abort-racing-the-call":
+                orig_gvc = a._get_valid_context
+
+                def held(*a_, **k_):
+                    race_go.set()
+                    t_end = time.time() + 3.0
+                    while a.is_alive() and time.time() < t_end:
+                        time.sleep(0.01)
+                    return orig_gvc(*a_, **k_)
+                a._get_valid_context = held
             if ph.startswith("find"):
                 ds = Dataset(); ds.QueryRetrieveLevel = "PATIENT"; ds.PatientName = "*"
                 res["find"] = [getattr(s, "Status", None) for s, _ in a.send_c_find(ds, "1.2.840.10008.5.1.4.1.2.1.1")]
